@@ -50,6 +50,9 @@ structure SDef where
   defId : Nat
   /-- the names the declaration refers to (sources, sequence / negation step types) -/
   refs : List Ty := []
+  /-- per referenced name: was it a registered stream when this declaration was compiled
+  (`StreamDefinition::references_resolved`) -/
+  resolved : List Bool := []
   resp : List Ev → Ev → Res
 
 /-! ## Router (`router.rs`) -/
@@ -272,6 +275,7 @@ declaration compiles differently when the streams it names changed: sequence ste
 resolve through them and inline their filter) -/
 def changed (E N : Eng) (old new : SDef) : Bool :=
   old.defId != new.defId || !sameSet old.subs new.subs || new.refs.any (declChanged E N)
+    || old.resolved != new.resolved
 
 /-- pre-repair change test: source kind/name and `operations.len()` only -/
 def legacyChanged (_E _N : Eng) (old new : SDef) : Bool := old.prim != new.prim || old.isJoin != new.isJoin || old.nops != new.nops
